@@ -151,6 +151,8 @@ FrameChecks(ev, f, a, pre, post, ctx, x, obs, tlo, thi) ==
   /\ Chk("C10", "ias", IsCommB(f) => AdmIas(pre, post.ias, f, ctx, adv), ev, "bds60")
   /\ Chk("C10", "mach", IsCommB(f) => AdmMach(pre, post.mach, f, ctx, adv), ev, "bds60")
   /\ Chk("C10", "vrate", IsCommB(f) => AdmVr(pre, post.vr, f, ctx, adv), ev, "bds60")
+  /\ Chk("C10", "one.register", IsCommB(f) => OneRegister(pre, post), ev, "two.registers")
+  /\ Chk("C11", "one.register", IsCommB(f) => OneRegister(pre, post), ev, "two.registers")
   \* the gate rests on the recorded transponder capability: it changes with DF11 / DF17 only
   /\ Chk("C10", "capability.source", AdmCa(pre, post.ca, f, ctx), ev, "ca")
   /\ Mark("C10", IsCommB(f) /\ (Must40(pre, f, ctx) \/ Must50(pre, f, ctx) \/ Must60(pre, f, ctx)
@@ -540,7 +542,15 @@ CountryStep(ev) ==
         IF bs # {} THEN LET b == Blocks[CHOOSE i \in bs : TRUE] IN b.sure => (r.hi <= b.hi /\ r.reg = b.code)
         ELSE (\A i \in 1..NBlocks : Blocks[i].sure => (Blocks[i].hi < r.lo \/ Blocks[i].lo > r.hi)) /\ r.reg = "??"
       bad == {j \in 1..n : ~RunOK(runs[j])}
-  IN  /\ Chk("C17", "partition", n >= 1 /\ runs[1].lo = 0 /\ runs[n].hi = 16777215
+      \* the blocks ICAO keeps for itself: ICAO(1) F00000-F07FFF, ICAO(2) 899000-8993FF and F09000-F093FF.  How their code is
+      \* spelled is not known to this table, but "shows that block's code" still means: the same code for the two ICAO(2)
+      \* blocks, a different one for ICAO(1), and neither is a State's code or "??"
+      RegAt(a) == LET ix == {j \in 1..n : runs[j].lo <= a /\ a <= runs[j].hi} IN IF ix = {} THEN "" ELSE runs[CHOOSE j \in ix : TRUE].reg
+      sureCodes == {Blocks[i].code : i \in {k \in 1..NBlocks : Blocks[k].sure}}
+      i1 == RegAt(15728640)   i2a == RegAt(9015296)   i2b == RegAt(15765504)
+  IN  /\ Chk("C17", "icao.own.blocks", i2a = i2b /\ i1 # i2a /\ {i1, i2a} \cap (sureCodes \cup {"??", ""}) = {}
+                                        /\ RegAt(15761407) = i1 /\ RegAt(9016319) = i2a /\ RegAt(15766527) = i2b, ev, "icao")
+      /\ Chk("C17", "partition", n >= 1 /\ runs[1].lo = 0 /\ runs[n].hi = 16777215
                                   /\ \A j \in 1..(n - 1) : runs[j + 1].lo = runs[j].hi + 1, ev, "rle")
       /\ \A j \in bad : Viol("C17", "allocation", [i |-> runs[j].lo], runs[j].reg)
       /\ Mark("C17", TRUE, ev)
